@@ -1413,6 +1413,10 @@ def addGlobalNuclide(nuclide: NuclideBase):
         or nuclide.label in byLabel
     ):
         raise ValueError(f"{nuclide} has already been added and cannot be duplicated.")
+    if isinstance(nuclide, IMcnpNuclide) and nuclide.getMcnpId() in byMcnpId:
+        raise ValueError(
+            f"{nuclide} with McnpId {nuclide.getMcnpId()} has already been added and cannot be duplicated."
+        )
 
     instances.append(nuclide)
     byName[nuclide.name] = nuclide
@@ -1421,10 +1425,6 @@ def addGlobalNuclide(nuclide: NuclideBase):
 
     # Add look-up based on the MCNP nuclide ID
     if isinstance(nuclide, IMcnpNuclide):
-        if nuclide.getMcnpId() in byMcnpId:
-            raise ValueError(
-                f"{nuclide} with McnpId {nuclide.getMcnpId()} has already been added and cannot be duplicated."
-            )
         byMcnpId[nuclide.getMcnpId()] = nuclide
     if not isinstance(nuclide, (NaturalNuclideBase, LumpNuclideBase, DummyNuclideBase)):
         # There are no AZS ID for elements / natural nuclides, or fictitious lump or dummy nuclides
